@@ -40,6 +40,15 @@ func runOpsProp(r *Run, prop string) error {
 	}
 	for h := 0; h < histories; h++ {
 		f := newFamily(r.Rng)
+		if prop == "C01" {
+			// evolve the sibling lineage a little (not emitted), with its own numbering
+			for s := 0; s < 8; s++ {
+				_, _, _, out, _ := o.stepRec(f.sibling, s, 0, weights, "none")
+				if out.err == nil && out.child != nil && wfGenome(out.child) == nil {
+					f.sibling.members = append(f.sibling.members, out.child)
+				}
+			}
+		}
 		for s := 0; s < steps; s++ {
 			// decide first whether this step is one the property is about, to keep case files focused
 			op, operand, g2, out, b2 := o.stepFor(prop, f, s, mateProb, weights)
@@ -71,9 +80,23 @@ func runOpsProp(r *Run, prop string) error {
 			if s%7 == 0 {
 				r.Sample(map[string]interface{}{"operator": opName(op), "before_genes": before.Genes, "after_genes": snap(out.child).Genes, "flag": out.flag})
 			}
-			if wfGenome(out.child) == nil {
+			crossFamily := false
+			if op.Kind == "mate" && g2 != nil && f.sibling != nil {
+				for _, m := range f.sibling.members {
+					if m == g2 {
+						crossFamily = true
+					}
+				}
+			}
+			if wfGenome(out.child) == nil && !crossFamily {
 				f.members = append(f.members, out.child)
 			}
+		}
+		if prop == "C01" || prop == "C05" {
+			reapplyFamily(r, o, f, prop)
+		}
+		if prop == "C01" {
+			c01SwappedNumbering(r, o, f)
 		}
 		if prop == "C04" {
 			c04TieFamily(r, o, f)
@@ -173,6 +196,91 @@ func c01UnrelatedParents(r *Run, o *opsGen) {
 	if out.err == nil && out.child != nil {
 		if e := wfGenome(out.child); e != nil {
 			r.Fail(Failure{Key: "singlepoint-empty-child-unrelated-parents", What: "single-point crossover of unrelated well-formed parents produced an ill-formed genome: " + e.Error(), Input: in})
+		}
+	}
+}
+
+// reapplyFamily: structural mutators applied again inside one innovation window to genomes that already
+// carry (or deliberately lack) the recorded innovation: exercises the haveNode / haveGene guards and the
+// reuse of recorded numbers. add-node; re-enable the split gene; add-node again (several draws).
+func reapplyFamily(r *Run, o *opsGen, f *family, prop string) {
+	g := f.pick(r.Rng)
+	run := func(op opSpec, target *genetics.Genome) opOutcome {
+		out := o.apply(op, target, nil, f.env, f.opts, true)
+		in := o.lastInput
+		bad := func(key, what string) { r.Fail(Failure{Key: key, What: what, Input: in}) }
+		evalOracles(prop, op, target, out.before, nil, out, bad)
+		r.Hist("operator", "reapply-"+opName(op))
+		if out.err == nil {
+			r.Count("reapply|"+opName(op)+"|"+out.before.str()+"|"+snap(out.child).str(), out.flag)
+		}
+		return out
+	}
+	for _, mut := range []int{2, 1} { // add_node, add_link
+		c1, err := genetics.VDuplicate(g, 700)
+		if err != nil {
+			return
+		}
+		if out := run(opSpec{Kind: "mut", Mut: mut, Times: 1}, c1); out.err != nil || !out.flag || wfGenome(c1) != nil {
+			continue
+		}
+		// siblings that lack the new structure: the record must be reused (same numbers)
+		for k := 0; k < 3; k++ {
+			c, err := genetics.VDuplicate(g, 710+k)
+			if err == nil {
+				run(opSpec{Kind: "mut", Mut: mut, Times: 1}, c)
+			}
+		}
+		// the genome that already has it, with every gene re-enabled: the guards must refuse a second copy
+		c2, err := genetics.VDuplicate(c1, 720)
+		if err != nil {
+			continue
+		}
+		for _, x := range c2.Genes {
+			x.IsEnabled = true
+		}
+		for k := 0; k < 5; k++ {
+			c, err := genetics.VDuplicate(c2, 730+k)
+			if err == nil {
+				run(opSpec{Kind: "mut", Mut: mut, Times: 1}, c)
+			}
+		}
+	}
+}
+
+// c01SwappedNumbering: two lineages that evolved the same two links in opposite order carry them under
+// swapped innovation numbers; both genomes are well-formed, and their crossover must still not produce
+// two genes for one link.
+func c01SwappedNumbering(r *Run, o *opsGen, f *family) {
+	g := f.pick(r.Rng)
+	n0 := len(f.start.Genes)
+	if len(g.Genes) < n0+2 {
+		return
+	}
+	b, err := genetics.VDuplicate(g, 800)
+	if err != nil {
+		return
+	}
+	i := n0 + r.Rng.Intn(len(b.Genes)-n0)
+	j := n0 + r.Rng.Intn(len(b.Genes)-n0)
+	if i == j {
+		return
+	}
+	b.Genes[i].Link, b.Genes[j].Link = b.Genes[j].Link, b.Genes[i].Link
+	b.Genes[i].IsEnabled, b.Genes[j].IsEnabled = b.Genes[j].IsEnabled, b.Genes[i].IsEnabled
+	if wfGenome(b) != nil || wfGenome(g) != nil {
+		return
+	}
+	for k := 0; k < 4; k++ {
+		f1, f2 := fitnessPair(r.Rng)
+		op := opSpec{Kind: "mate", Method: k % 3, NewId: 801 + k, F1: JF(f1), F2: JF(f2)}
+		out := o.apply(op, g, b, f.env, f.opts, true)
+		in := o.lastInput
+		bad := func(key, what string) { r.Fail(Failure{Key: key, What: what, Input: in}) }
+		evalOracles("C01", op, g, o.lastBefore, b, out, bad)
+		r.Hist("operator", "swapped-numbering-"+opName(op))
+		if out.err == nil {
+			r.Count("swapped|"+snap(g).str()+"|"+snap(b).str()+"|"+snap(out.child).str(), true)
 		}
 	}
 }
